@@ -47,6 +47,15 @@ func (t *Telnet) handleControlCharResponse(ctrlBuf []byte, c byte) ([]byte, erro
 		}
 	} else if len(ctrlBuf) == 1 && util.ByteIsAny(c, []byte{do, dont, will, wont}) {
 		ctrlBuf = append(ctrlBuf, c)
+	} else if len(ctrlBuf) == 1 {
+		// iac followed by something that is not an option negotiation: a two byte command (nop,
+		// go-ahead, ...) which we just drop, or a second iac which is an escaped, literal, 255 in
+		// the data -- either way the command is over and what follows is not part of it
+		if c == iac {
+			t.initialBuf = append(t.initialBuf, c)
+		}
+
+		ctrlBuf = make([]byte, 0)
 	} else if len(ctrlBuf) == 2 { //nolint:mnd
 		cmd := ctrlBuf[1:2][0]
 		ctrlBuf = make([]byte, 0)
